@@ -129,6 +129,11 @@ func verifHash(b []byte) string {
 
 // verifRawRoundTrip sends the exact bytes and parses whatever comes back.
 func verifRawRoundTrip(addr string, raw []byte, method string, timeout time.Duration) verifRawResp {
+	return verifRawRoundTripPaused(addr, raw, method, timeout, 0)
+}
+
+// verifRawRoundTripPaused: the same, with a pause in the middle of sending (a client on a slow link)
+func verifRawRoundTripPaused(addr string, raw []byte, method string, timeout, pause time.Duration) verifRawResp {
 	var out verifRawResp
 	c, err := net.DialTimeout("tcp", addr, 5*time.Second)
 	if err != nil {
@@ -139,6 +144,12 @@ func verifRawRoundTrip(addr string, raw []byte, method string, timeout time.Dura
 	c.SetDeadline(time.Now().Add(timeout))
 	go func() {
 		// written from a goroutine so that an early answer cannot dead-lock a large body
+		if pause > 0 {
+			c.Write(raw[:len(raw)/2])
+			time.Sleep(pause)
+			c.Write(raw[len(raw)/2:])
+			return
+		}
 		c.Write(raw)
 	}()
 	br := bufio.NewReader(c)
